@@ -1130,6 +1130,53 @@ func wlMisc(inst int) string {
 	return dig(out...)
 }
 
+// wlHashTablesNoSync: mutators and point queries only — Put (growth well past the first resizes), Get, Delete (shrinks), Size.
+// No All()/String()/Equal(): those take the package-level shuffle mutex, and a lock that both goroutines happen to pass
+// orders everything before it in one goroutine before everything after it in the other, which hides a race on
+// unsynchronised package-level state (e.g. a memo inside a helper used by resize) from the detector unless the two
+// goroutines run in lockstep.  Without any synchronisation between the goroutines every such access pair is reported.
+func wlHashTablesNoSync(inst int) string {
+	r := &sm{s: uint64(7000 + inst)}
+	hInt := hash.HashFuncForInt[int](nil)
+	eqI := generic.NewEqualFunc[int]()
+	opts := symboltable.HashOpts{}
+	tabs := []symboltable.SymbolTable[int, int]{
+		symboltable.NewChainHashTable(hInt, eqI, eqI, opts),
+		symboltable.NewLinearHashTable(hInt, eqI, eqI, opts),
+		symboltable.NewQuadraticHashTable(hInt, eqI, eqI, opts),
+		symboltable.NewDoubleHashTable(hInt, eqI, eqI, opts),
+		symboltable.NewQuadraticHashTable(hInt, eqI, eqI, symboltable.HashOpts{InitialCap: []int{151, 157, 163, 167, 173}[inst%5]}),
+		symboltable.NewDoubleHashTable(hInt, eqI, eqI, symboltable.HashOpts{InitialCap: []int{211, 223, 227}[inst%3]}),
+	}
+	var out []string
+	n := 260 + inst%11
+	for ti, t := range tabs {
+		sum := 0
+		for i := 0; i < n; i++ {
+			t.Put(i*7+inst, i)
+			if i%9 == 8 {
+				t.Delete(r.intn(n) * 7)
+			}
+		}
+		grown := t.Size()
+		for i := 0; i < n; i++ {
+			if i%8 != 0 {
+				t.Delete(i*7 + inst)
+			}
+		}
+		for i := 0; i < n; i += 3 {
+			if v, ok := t.Get(i*7 + inst); ok {
+				sum += v
+			}
+		}
+		for i := 0; i < 40; i++ {
+			t.Put(-i-1, i)
+		}
+		out = append(out, fmt.Sprintf("n%d:%d:%d:%d:%v", ti, grown, t.Size(), sum, t.IsEmpty()))
+	}
+	return dig(out...)
+}
+
 var workloads = []workload{
 	{"hashtables", "fill and iterate own chain/linear/quadratic/double hash tables (own hash functions)", wlHashTables},
 	{"ordered", "own BST/AVL/red-black tables", wlOrderedTables},
@@ -1146,4 +1193,5 @@ var workloads = []workload{
 	{"helpers", "own tables and sets keyed through the library's exported package-level Hash*/Eq*/Cmp* values (automata, lr, grammar)", wlHelpers},
 	{"misc", "own queues/stacks, graphs (traversals, components, topological order, DOT), two-buffer input reader", wlMisc},
 	{"automata", "own NFA: subset construction, minimisation, dead-state elimination, reindexing, combinators", wlAutomata},
+	{"hashtables-nosync", "grow and shrink own hash tables with Put/Get/Delete only (no call that takes a package-level lock)", wlHashTablesNoSync},
 }
